@@ -196,4 +196,46 @@ Section NumTokens.
     assert (E63 : (9223372036854775808 <? N.pos p) = false) by (unfold i64_min in Hi; lia). rewrite E63.
     repeat split; auto; congruence.
   Qed.
+
+  (* any decimal digit string, leading zeros included *)
+  Theorem tok_digits fuel r d ds rest : all_digits (d :: ds) -> dfold 0 (d :: ds) <= u64_MAX ->
+    (length (d :: ds) < fuel)%nat -> delim_ok rest -> at_bytes r ((d :: ds) ++ rest) ->
+    exists r', parse_token fuel d r = (Ok (TNumber (PosInt (dfold 0 (d :: ds)))), r') /\ at_bytes r' rest /\ rk r' = rk r.
+  Proof.
+    intros Hd Hmax Hf Hr Ha. pose proof (Forall_inv Hd) as Hdig. cbv beta in Hdig.
+    destruct (num_token_digits fast std_parse fuel r true d ds rest Hf Hd Hr Hmax Ha) as (r1 & E1 & Ha1 & Hk1).
+    exists r1. rewrite (token_digit fuel d Hdig), (bind_ok _ _ _ _ _ E1). unfold ret, int_result. auto.
+  Qed.
+
+  Lemma digit_not_symbolish d : is_digit d = true ->
+    ((d =? 0) || is_delimiter d || is_sign_subsequent d || (d =? 46) || (127 <? d)) = false.
+  Proof.
+    intros Hdig. unfold is_digit, in_range in Hdig.
+    destruct (N.eq_dec d 48) as [->|]; [reflexivity|]. destruct (N.eq_dec d 49) as [->|]; [reflexivity|].
+    destruct (N.eq_dec d 50) as [->|]; [reflexivity|]. destruct (N.eq_dec d 51) as [->|]; [reflexivity|].
+    destruct (N.eq_dec d 52) as [->|]; [reflexivity|]. destruct (N.eq_dec d 53) as [->|]; [reflexivity|].
+    destruct (N.eq_dec d 54) as [->|]; [reflexivity|]. destruct (N.eq_dec d 55) as [->|]; [reflexivity|].
+    destruct (N.eq_dec d 56) as [->|]; [reflexivity|]. destruct (N.eq_dec d 57) as [->|]; [reflexivity|]. lia.
+  Qed.
+
+  (* a sign, then digits: +n is n; -n is the integer -n down to -2^63 *)
+  Theorem tok_signed_digits fuel r sg d ds rest : sg = 43 \/ sg = 45 ->
+    all_digits (d :: ds) -> dfold 0 (d :: ds) <= u64_MAX ->
+    (S (length (d :: ds)) < fuel)%nat -> delim_ok rest -> at_bytes r (sg :: (d :: ds) ++ rest) -> peeked r ->
+    exists r', parse_token fuel sg r = (Ok (TNumber (int_result (sg =? 43) (dfold 0 (d :: ds)))), r') /\
+               at_bytes r' rest /\ rk r' = rk r.
+  Proof.
+    intros Hsg Hd Hmax Hf Hr Ha Hp. pose proof (Forall_inv Hd) as Hdig. cbv beta in Hdig.
+    rewrite (token_sign alpha fast std_parse fuel sg Hsg). unfold sign_arm. cbn [app] in Ha.
+    step. step. rewrite (digit_not_symbolish d Hdig).
+    destruct (num_token_digits fast std_parse fuel r1 (sg =? 43) d ds rest ltac:(cbn in *; lia) Hd Hr Hmax Ha1)
+      as (r2 & E2 & Ha2 & Hk2).
+    rewrite (bind_ok _ _ _ _ _ E2). exists r2. unfold ret. repeat split; auto; congruence.
+  Qed.
+
+
 End NumTokens.
+
+Lemma int_result_neg n : n <= 9223372036854775808 -> int_result false n = num_from_signed (- Z.of_N n).
+Proof. intros H. unfold int_result. replace (9223372036854775808 <? n) with false by lia. reflexivity. Qed.
+
